@@ -36,7 +36,7 @@ def make_case(i, rng, tier):
     main = common.spec("main", inp["root"], data, inp["cc"], inp["enc"], strict=strict, consumer="binary")
     tasks, sched = common.perturb(rng, [main], p_by=0.3, roots=True)
     return {"input": {"root": inp["root"], "cc": inp["cc"], "enc": inp["enc"], "label": inp["label"],
-                      "orig": bytes(inp["data"]).hex()},
+                      "orig": bytes(inp["data"]).hex(), "threads": rng.randrange(1 << 30) if rng.random() < 0.0025 else None},
             "faults": recs, "tasks": tasks, "schedule": sched}
 
 
@@ -89,6 +89,9 @@ def check(case):
         res.count("cross:events-differ-from-reference")
     if not strict:
         res.count("warn-value-only:warnings", sum(1 for it in t.items if it[0] == "W"))
+    if case["input"].get("threads") is not None and len(s["data"]) < 3000:
+        sp = {k_: v_ for k_, v_ in s.items() if k_ != "consumer"}
+        common.check_threads(res, "C02", [dict(sp, id="t0"), dict(sp, id="t1"), dict(sp, id="t2")], case["input"]["threads"], label=label)
     res.nontrivial(s["type"], s.get("cc"), mode, s["data"])
     return res
 
